@@ -389,6 +389,15 @@ def box (F : TFunctor R) (b : Box) : Except Err (Tensor R) :=
       | .ok t => .ok t.dagger
     else F.gen b
 
+/-- The special boxes are what the classes `Swap`, `Cup`, `Cap` of discopy build (the
+    hypothesis `Genuine` of the C09 theorem, as a Boolean for the driver). -/
+def genuineB (b : Box) : Bool :=
+  match b.kind with
+  | .gen => true
+  | .swap => b.cod == pySlice b.dom (some 1) none ++ pySlice b.dom none (some 1)
+  | .cup => b.dom.length == 2 && b.cod.isEmpty
+  | .cap => b.cod.length == 2 && b.dom.isEmpty
+
 /-- State of the loop of tensor.py:367-390. -/
 structure St (R : Type) where
   scan : Ty
